@@ -49,7 +49,8 @@ def writer_classes(ctx, rep):
 
 
 def load_spec(ctx):
-    p = os.path.join(os.path.dirname(os.path.dirname(os.path.abspath(__file__))), '.work', 'corpus_ws', 'spec.json')
+    import extract
+    p = os.path.join(extract.WORK, 'corpus_ws', 'spec.json')
     return json.load(open(p))
 
 
